@@ -822,6 +822,14 @@ class Interp:
                 if self.truth(self.compare(ast.Eq(), y, x)):
                     return True
             return False
+        if isinstance(cont, range) and isinstance(x, SInt):
+            # membership of a symbolic integer in a concrete range is arithmetic, not 255 equality tests
+            a, b, st = cont.start, cont.stop, cont.step
+            if st > 0:
+                t = z3.And(x.t >= a, x.t < b) if st == 1 else z3.And(x.t >= a, x.t < b, (x.t - a) % st == 0)
+            else:
+                t = z3.And(x.t <= a, x.t > b, (a - x.t) % (-st) == 0)
+            return self.truth(ZAtom(t), "in range")
         if isinstance(cont, (set, dict, str, bytes, range)):
             return x in cont
         raise Unsupported(f"membership in {type(cont).__name__}")
